@@ -2526,6 +2526,17 @@ func (s *scanner) processScannedFiles(entryPointMeta []graph.EntryPoint) []scann
 						} else {
 							sb.WriteString(s.options.MetafileFormat.MaybeRemoveWhitespace(",\n        "))
 						}
+						if record.SourceIndex.IsValid() {
+							// The parser generates the imports of injected files with the source
+							// index already filled in. These files are in the bundle, so this is
+							// not an external import of the (absolute) path in the import record.
+							sb.WriteString(fmt.Sprintf(
+								s.options.MetafileFormat.MaybeRemoveWhitespace("{\n          \"path\": %s,\n          \"kind\": %s%s\n        }"),
+								helpers.QuoteForJSON(s.results[record.SourceIndex.GetIndex()].file.inputFile.Source.PrettyPaths.Select(s.options.MetafilePathStyle), s.options.ASCIIOnly),
+								helpers.QuoteForJSON(record.Kind.StringForMetafile(), s.options.ASCIIOnly),
+								metafileWith))
+							continue
+						}
 						sb.WriteString(fmt.Sprintf(
 							s.options.MetafileFormat.MaybeRemoveWhitespace("{\n          \"path\": %s,\n          \"kind\": %s,\n          \"external\": true%s\n        }"),
 							helpers.QuoteForJSON(record.Path.Text, s.options.ASCIIOnly),
